@@ -37,7 +37,7 @@ for sid, c in sorted(conf.items()):
         'checks_run': 'python3 -m vf.check --all with VERIF_REPO pointing at a scratch worktree of /repo HEAD with patch.diff applied (tools/run_seeds.py)',
         'caught_by': sorted(p for p, v in checks.items() if v.get('exit') == 1),
         'undecided': sorted(p for p, v in checks.items() if v.get('exit') == 2),
-        'own_property_result': {0: 'MISSED (exit 0)', 1: 'caught (VIOLATION)', 2: 'undecided (exit 2)'}.get(checks.get(sid.split('-')[0], {}).get('exit'), 'not run'),
+        'own_property_result': {0: 'MISSED (exit 0)', 1: 'caught (VIOLATION)', 2: 'undecided (exit 2)'}.get(checks.get(m.get('property', sid.split('-')[0]), {}).get('exit'), 'not run'),
         'bounded_only': sorted(set(l.split()[1].split('=')[1] for l in r.get('lines', []) if l.startswith('VIOLATION') and 'obligation=bounded:' in l)),
         'sample_lines': r.get('lines', [])[:4],
     }
